@@ -32,6 +32,9 @@ REQUEST_TIMEOUT = 30.0
 # Maximum size of the <META> field of a response header, in bytes
 MAX_META_SIZE = 1024
 
+# Size of the pieces in which a response body is handed to the transport
+WRITE_CHUNK_SIZE = 64 * 1024
+
 
 def _encode_response(
     status: object, meta: object, body: object
@@ -125,9 +128,10 @@ class GeminiServerProtocol(asyncio.Protocol):
         self._request_dispatched = False
         self._response_sent = False
 
-        # The connection is closed only after the response left the write buffer
+        # The response is written as the transport accepts it; the connection
+        # is closed once the last piece has been accepted
         self._write_paused = False
-        self._close_when_drained = False
+        self._unsent: list[bytes] = []
 
     def connection_made(self, transport: asyncio.BaseTransport) -> None:
         """Called when a client connects.
@@ -138,10 +142,10 @@ class GeminiServerProtocol(asyncio.Protocol):
         self.transport = transport  # type: ignore[assignment]
         if self.transport:
             self.peer_name = self.transport.get_extra_info("peername")
-            # Have the transport report unsent data at once (see _send_response)
+            # Have the transport report any unsent data (see _pump_response)
             set_limits = getattr(self.transport, "set_write_buffer_limits", None)
             if callable(set_limits):
-                set_limits(high=0)
+                set_limits(high=1)
         self.request_start_time = time.time()
 
         # Set timeout for receiving request
@@ -319,19 +323,28 @@ class GeminiServerProtocol(asyncio.Protocol):
             duration_ms=round(duration_ms, 2),
         )
 
-        # Header <STATUS><SPACE><META><CRLF>, then the body (2x only)
-        self.transport.write(header)
-        if body:
-            self.transport.write(body)
+        # Header <STATUS><SPACE><META><CRLF>, then the body (2x only), handed to
+        # the transport piece by piece as it accepts them (see _pump_response)
+        self._unsent = [header]
+        self._unsent.extend(
+            body[i : i + WRITE_CHUNK_SIZE] for i in range(0, len(body), WRITE_CHUNK_SIZE)
+        )
+        self._pump_response()
 
-        # Close connection (Gemini/Titan: one request per connection), but only
-        # once the response has left the write buffer: closing a TLS transport
-        # starts a shutdown that is aborted - dropping whatever is still
-        # unsent - when the peer has not taken everything within the shutdown
-        # timeout.
-        if self._write_paused:
-            self._close_when_drained = True
-        else:
+    def _pump_response(self) -> None:
+        """Write the remaining pieces of the response while the transport accepts
+        them, then close the connection (Gemini/Titan: one request per connection).
+
+        Closing a TLS transport starts a shutdown that asyncio aborts - dropping
+        all data not yet sent - when it has not completed within the shutdown
+        timeout. The response is therefore written in pieces, pausing whenever the
+        transport reports unsent data, so that close() is only called when no more
+        than the last piece and the transport's own buffer are outstanding,
+        however long the client takes for the rest.
+        """
+        while self._unsent and not self._write_paused and self.transport:
+            self.transport.write(self._unsent.pop(0))
+        if not self._unsent and not self._write_paused and self.transport:
             self.transport.close()
 
     def pause_writing(self) -> None:
@@ -341,10 +354,8 @@ class GeminiServerProtocol(asyncio.Protocol):
     def resume_writing(self) -> None:
         """Called by the transport when its write buffer has drained."""
         self._write_paused = False
-        if self._close_when_drained:
-            self._close_when_drained = False
-            if self.transport:
-                self.transport.close()
+        if self._response_sent:
+            self._pump_response()
 
     def _send_error_response(self, status: StatusCode, message: str) -> None:
         """Send an error response and close the connection.
